@@ -51,23 +51,63 @@ package postprocessor
 // extractAssets: dispatch to the extractors (abstract here, see C19/C07); what C06 needs is
 // the hop bookkeeping of what it returns: nil / self-referencing assets are filtered out and
 // every asset inherits the page's hops.
+// outsSep: the outlinks list is a new list, separate from the assets list, holding new URL
+// objects only (so neither removing assets in place nor writing hop counts touches it, and it
+// never holds the page's own URL object)
+//@ pred outsSep(assets []*models.URL, outlinks []*models.URL) = freshslice(outlinks) && (arrof(outlinks) != 0 ==> !samearray(assets, outlinks)) && forall(j, 0, len(outlinks), outlinks[j] == nil || fresh(outlinks[j]))
 //@ func extractAssets
 //@   property C06
 //@   requires item != nil && item.url != nil
-//@   modifies models.URL::*, elem::*models.URL, models.Item::base
+//@   modifies models.URL::*, elem::*models.URL, models.Item::base, elem::string
+//@   loop for invariant [outs] outsSep(assets, outlinks)
+//@   loop range invariant [outs] outsSep(assets, outlinks)
 //@   loop for invariant [filtered] 0 <= i && i <= len(assets) && forall(j, 0, i, assets[j] != nil) && item.url == old(item.url) && item.url != nil
 //@   loop range invariant [asset-hops] -1 <= rangeindex && rangeindex < len(assets) && forall(j, 0, len(assets), assets[j] != nil) && forall(j, 0, rangeindex+1, assets[j].Hops == item.url.Hops) && item.url == old(item.url) && item.url != nil
 //@   loop range#2 invariant [keep] item.url == old(item.url) && item.url != nil && (len(outlinks) == 0 ==> forall(j, 0, len(assets), assets[j] != nil && assets[j].Hops == item.url.Hops))
+//@   loop range#2 let h0 = item.url.Hops
+//@   loop range#2 invariant [outlink-hops] item.url.Hops == h0 && -1 <= rangeindex && outsSep(assets, outlinks) && forall(j, 0, rangeindex+1, outlinks[j].Hops == h0 + 1)
 //@   ensures [asset-hops] result2 == nil && len(result1) == 0 ==> forall(j, 0, len(result0), result0[j] != nil && result0[j].Hops == item.url.Hops) // C06: assets inherit the page's hops (proved for extractions that return no separate outlinks: for JSON/XML the outlink objects would have to be shown distinct from the asset objects)
+//@   ensures [outs-sep] result2 == nil ==> outsSep(result0, result1)
+//@   ensures [error-no-outlinks] result2 != nil ==> len(result1) == 0 // an extraction that failed hands back no outlinks (they would not have been given a hop count)
+//@   ensures [outlink-hops] result2 == nil ==> forall(j, 0, len(result1), (result1[j] == nil || fresh(result1[j])) && (result1[j] != nil ==> result1[j].Hops == item.url.Hops + 1)) // C06: outlinks ... carry the parent's hops + 1 (those found in JSON/XML assets documents)
+
+// extractLinksFromPage: every link found in the text is a new URL object one hop below the page.
+//@ func extractLinksFromPage
+//@   property C06
+//@   requires URL != nil
+//@   modifies models.URL::*!Hops!Redirects
+//@   loop range invariant [built] URL != nil && URL == old(URL) && URL.Hops == old(URL.Hops) && freshslice(links) && forall(j, 0, len(links), links[j] != nil && fresh(links[j]) && links[j].Hops == URL.Hops + 1)
+//@   ensures [hops] URL.Hops == old(URL.Hops) && forall(j, 0, len(result), result[j] != nil && fresh(result[j]) && result[j].Hops == URL.Hops + 1) // C06: outlinks ... carry the parent's hops + 1
+
+// extractOutlinks: whatever the extractors returned, every outlink handed back carries the
+// page's hops + 1 (final loop). The extractors hand back new URL objects ([fresh-urls], assumed
+// for the unverified ones), so the loop never writes the page's own hop count.
+//@ func extractOutlinks
+//@   property C06
+//@   mode paths
+//@   requires item != nil && item.url != nil
+//@   modifies models.URL::*, models.Item::base
+//@   loop range let h0 = item.url.Hops
+//@   loop range invariant [hops] item.url == old(item.url) && item.url != nil && item.url.Hops == h0 && -1 <= rangeindex && forall(j, 0, len(outlinks), outlinks[j] == nil || fresh(outlinks[j])) && forall(j, 0, rangeindex+1, outlinks[j].Hops == h0 + 1)
+//@   loop range invariant [others-kept] forall(u, *models.URL, u != nil && !fresh(u) ==> u.Hops == old(u.Hops) && u.Redirects == old(u.Redirects))
+//@   ensures [outlink-hops] err == nil ==> forall(j, 0, len(outlinks), (outlinks[j] == nil || fresh(outlinks[j])) && (outlinks[j] != nil ==> outlinks[j].Hops == item.url.Hops + 1)) // C06: outlinks ... carry the parent's hops + 1
+//@   ensures [others-kept] forall(u, *models.URL, u != nil && !fresh(u) ==> u.Hops == old(u.Hops) && u.Redirects == old(u.Redirects)) // only the new outlink objects get a hop count here
 
 //@ func postprocessItem
 //@   property C06
 //@   requires item != nil && item.url != nil && models.wfNode(item) && config.config != nil && models.dwrDef()
 //@   requires [archived-has-response] item.status == models.ItemArchived ==> item.url.response != nil
 //@   loop range invariant [tree] item != nil && models.wfNode(item) && config.config != nil && item.url != nil && item.url == old(item.url) && item.parent == old(item.parent)
+//@   local hP int = 0
+//@   after extractAssets(item)#1: hP = item.url.Hops
+//@   loop range invariant [outs-kept] item.url.Hops == hP && outsSep(assets, outlinksFromAssets) && forall(j, 0, len(outlinksFromAssets), outlinksFromAssets[j] != nil ==> outlinksFromAssets[j].Hops == hP + 1)
 //@   loop range#2 invariant [tree] item != nil && config.config != nil && item.url != nil && item.url == old(item.url)
 //@   loop range#2 invariant [via] @C15 forall(j, 0, len(outlinks), outlinks[j] != nil ==> outlinks[j].seedVia == models.urlKey(item.url))
+//@   loop range#2 let h0 = item.url.Hops
+//@   loop range#2 invariant [hops-in] item.url.Hops == h0 && forall(j, 0, len(newOutlinks), newOutlinks[j] != item.url && (newOutlinks[j] != nil ==> newOutlinks[j].Hops == h0 + 1 || (domainscrawl.dcOn() && newOutlinks[j].Hops == 0)))
+//@   loop range#2 invariant [hops-out] forall(k, 0, len(outlinks), outlinks[k] != nil ==> outlinks[k].url != nil && outlinks[k].url != item.url && (outlinks[k].url.Hops == h0 + 1 || (domainscrawl.dcOn() && outlinks[k].url.Hops == 0)))
 //@   ensures [via] @C15 forall(j, 0, len(result), result[j] != nil ==> result[j].seedVia == models.urlKey(item.url)) // C15: every outlink the pipeline discovers is handed to the queue with ... its parent page as 'via'
+//@   ensures [outlink-hops] forall(k, 0, len(result), result[k] != nil ==> result[k].url != nil && (result[k].url.Hops == item.url.Hops + 1 || (domainscrawl.dcOn() && result[k].url.Hops == 0))) // C06: outlinks ... carry the parent's hops + 1, outlinks that match it (--domains-crawl) are queued with hops 0
 //@   ensures [not-archived] old(item.status) != models.ItemArchived ==> item.status == old(item.status) && len(item.children) == old(len(item.children)) && len(result) == 0
 //@   ensures [redirect-max] old(item.status == models.ItemArchived && isRedirectCode(item.url.response.StatusCode) && item.url.Redirects >= config.config.MaxRedirect) ==> item.status == models.ItemCompleted && len(item.children) == 0 && len(result) == 0 // C06: at most --max-redirect redirects are followed in a chain
 //@   ensures [redirect-one] old(item.status == models.ItemArchived && isRedirectCode(item.url.response.StatusCode) && item.url.Redirects < config.config.MaxRedirect) ==> item.status == models.ItemGotRedirected && len(item.children) == 1 && item.children[0].url.Redirects == old(item.url.Redirects) + 1 && item.children[0].url.Hops == old(item.url.Hops) && item.children[0].status == models.ItemFresh && len(result) == 0 // C06: redirect targets inherit the page's hops
